@@ -2,6 +2,13 @@ import PqlModel.Props.C08
 import PqlModel.Props.C08Full
 import PqlModel.Props.C08Reject
 import PqlModel.Props.C08RejectCx
+import PqlModel.Props.C07OperatorIRTreesA
+import PqlModel.Props.C07OperatorIRTreesB
+import PqlModel.Props.C07OperatorIRSort
+import PqlModel.Props.C07OperatorIRExtend
+import PqlModel.Props.C07OperatorIRProject
+import PqlModel.Props.C07OperatorIRLet
+import PqlModel.Props.C07OperatorIRTabular
 #print axioms Pql.C08.C08_split_partition
 #print axioms Pql.C08.C08_splitSemi_partition
 #print axioms Pql.C08.C08_endSplit_iff
